@@ -450,6 +450,18 @@ fn slice_op<S: BitmapSlice>(s: &VolatileSlice<S>, op: &[u64]) -> (bool, u64) {
             let mut sink: Vec<u8> = Vec::new();
             r1(s.write_all_volatile_to(a2, &mut sink, a1), |_| a1 as u64)
         }
+        19 => {
+            // stream write OUT of memory into a real descriptor: a memfd that takes everything, or (a4 != 0) a
+            // read-only descriptor on which write(2) fails with EBADF - neither may mark anything
+            use std::os::fd::FromRawFd;
+            let fd = if a4 != 0 {
+                unsafe { libc::open(b"/dev/null\0".as_ptr() as *const libc::c_char, libc::O_RDONLY) }
+            } else {
+                unsafe { libc::memfd_create(b"vmhw\0".as_ptr() as *const libc::c_char, 0) }
+            };
+            let mut f = unsafe { std::fs::File::from_raw_fd(fd) };
+            r1(s.write_volatile_to(a2, &mut f, a1.min(cap)), |v| v as u64)
+        }
         _ => (false, 0),
     }
 }
@@ -687,7 +699,7 @@ fn gen(rng: &mut Rng, tier: Tier, emit: &mut dyn FnMut(Vec<Tok>)) {
                             (code, a1, 0, 0, 0)
                         }
                         _ => {
-                            let code = *rng.pick(&[0u64, 0, 1, 1, 2, 3, 3, 4, 5, 6, 6, 7, 8, 9, 10, 11, 12]);
+                            let code = *rng.pick(&[0u64, 0, 1, 1, 2, 3, 3, 4, 5, 6, 6, 7, 8, 9, 10, 11, 12, 19, 19]);
                             match code {
                                 2 | 9 => {
                                     let sz = *rng.pick(&[1u64, 2, 4, 8]);
@@ -712,6 +724,10 @@ fn gen(rng: &mut Rng, tier: Tier, emit: &mut dyn FnMut(Vec<Tok>)) {
                                 6 => {
                                     let cnt = pick_near(rng, &[0, 1, ps, len, len + 5]).min(60_000);
                                     (code, cnt, pick_near(rng, &[0, len / 2, len, ps]), pick_near(rng, &[cnt, cnt / 2, 0, 3]).min(60_000), rng.below(3) / 2)
+                                }
+                                19 => {
+                                    let cnt = pick_near(rng, &[0, 1, ps, len, len + 5]).min(60_000);
+                                    (code, cnt, pick_near(rng, &[0, len / 2, len, ps]), 0, rng.below(2))
                                 }
                                 4 | 5 | 11 | 12 => {
                                     let cnt = pick_near(rng, &[0, 1, ps, len, len + 5]).min(60_000);
